@@ -94,6 +94,14 @@ def plan(pid, tier):
         return {"level": "exploration", "jobs": jobs, "owns_crashes": True, "rule": RULE_GRID, "assumptions": ["Env refuses every request above 1 MiB, so 'cannot be satisfied' is decidable without touching the OS",
                 "counts are taken around usize::MAX/size, isize::MAX/size, isize::MAX rounded by alignment, usize::MAX, and 1 MiB/size; element sizes 0,1,3,8,24,4096 (slices) and 2^20+1, 2^40 (Vec capacity family)"],
                 "bounds": {"entry_points": 29, "element_sizes": 7, "count_classes": 16, "min_align": [1, 2, 4, 8, 16]}, "build_profiles": ("release",) if q else ("release", "dbg")}
+    if pid == "C20":
+        d = 7 if q else 8
+        pair = {"name": "pair-interleavings", "bin": "bumpmc", "profile_build": "release", "args": ["pair", "--prop", "20", "--depth", str(d), "--tier", tier, "--budget-s", "40" if q else "600"], "replay_args": ["replay-pair", "--depth", str(d), "--tier", tier]}
+        loom = {"name": "loom-schedules", "bin": "c20_loom", "profile_build": "release", "args": ["run", "--tier", tier], "replay_args": ["replay"]}
+        return {"level": "model_checking", "jobs": [pair, loom], "owns_crashes": False,
+                "rule": "(1) BFS over interleaved histories of 2 (thorough: also 3) real arenas, each with its own allocator slab; every arena's trace is compared with its own sub-history run alone, every footer store reported by the verif_hooks hook must target the acting arena's own chunks; (2) loom explores all schedules (operation granularity, DPOR, no preemption bound) of 2-3 threads each driving its own arena and of arena hand-over; the shared static is a loom UnsafeCell so unsynchronised conflicting accesses are reported as data races",
+                "assumptions": ["bumpalo contains no atomics: schedules are explored at operation granularity; races are decided by happens-before over instrumented accesses (footer stores via the hook, reads of the shared static by chunk-less arenas)", "a store through a site without the hook would be invisible to loom (the sequential pair model still detects a changed static)"],
+                "bounds": {"pair_depth": d, "arenas": 2 if q else 3, "loom_threads": "2-3", "loom_ops_per_thread": "1-3 (thorough: up to 4)"}}
     return None
 
 
